@@ -40,10 +40,22 @@ def check_alternative_writers(repo, res, cg, facts):
     mv = facts.classes.get('MultiValue')
     if mv is None:
         raise AnalysisError('class MultiValue vanished')
-    recorders = {k for k, fi in facts.funcs.items() if any(
-        isinstance(n, ast.For) and '_attr_assigns' in unparse(n.iter) for n in ast.walk(fi.node))}
+    # the recorder: a method that walks a list field of its object which another method of the class appends to (the assignment
+    # sites in visiting order) and builds MultiValue objects inside that loop
+    recorders = set()
+    for k, fi in facts.funcs.items():
+        if fi.cls is None:
+            continue
+        appended = {unparse(c.func.value) for m in fi.cls.methods.values() if m.key != k for c in ast.walk(m.node)
+                    if isinstance(c, ast.Call) and isinstance(c.func, ast.Attribute) and c.func.attr == 'append'
+                    and unparse(c.func.value).startswith('self.')}
+        for n in ast.walk(fi.node):
+            if isinstance(n, ast.For) and unparse(n.iter) in appended and any(
+                    isinstance(c, ast.Call) and isinstance(c.func, ast.Name) and c.func.id == 'MultiValue' for c in ast.walk(n)):
+                recorders.add(k)
     if not recorders:
-        raise AnalysisError('no function walks _attr_assigns: the recorder of instance-attribute assignments vanished')
+        raise AnalysisError('no method builds MultiValue objects while walking a recorded list of its object: the recorder of '
+                            'instance-attribute assignments vanished')
 
     def writes_values(fn):
         for n in ast.walk(fn):
